@@ -24,6 +24,7 @@ CONSTANTS
   CLEAN = TRUE
   MaxActs = 2
   BUG_CLEAN_REENTRANT = FALSE
+  BUG_NESTED_DROP_FLAG = FALSE
   RECORD = TRUE
 INVARIANT NoViolation
 INVARIANT StructInv
